@@ -43,6 +43,7 @@ class Contract:
     self.note = kw.pop('note', '')
     self.canary = kw.pop('canary', True)
     self.at_release = dict(kw.pop('at_release', {}))   # lock expr -> clauses that must hold whenever it is released
+    self.site_ghost = dict(kw.pop('site_ghost', {}))   # ghost name -> fn(interp, env): its value at a call site
     self.variant = kw.pop('variant', '')            # distinguishes several contracts of one target
     if kw:
       raise TypeError(f'unknown contract keys {list(kw)}')
